@@ -8,6 +8,24 @@ var commonAssumptions = []string{
 }
 
 func init() {
+	register("C06", &propDef{
+		Run: runC06,
+		Info: propInfo{
+			Explanation: "Structural integrity rules of packetio.Buffer decided on the SSA of Write/Read/grow/available/size over all paths: Write copies the caller's slice (taint: the slice value reaches no store/channel/map/closure); every store to contents/occupancy is on the false edges of the size (>=65536) and closed tests and under the mutex; no error return is reachable after a store (refusal is side-effect free) and growth only re-linearises into a fresh array (head=0, tail=bytes copied, strictly larger); the 2-byte header is written and read with the same byte order; Read advances head by the decoded length and reports ErrShortBuffer exactly on copied<length; after every advance of head/tail a freshly loaded wrap test precedes the next use; count++/count-- are paired with stored/returned packets; the free-space test keeps one byte free (exact linear normal form). Not decided: correct splitting of header/payload at every ring offset (value-level).",
+			RuleText:    "one obligation per rule per anchored function/helper; a site is a matched store, copy, return, branch or path; non-trivial = matched at least one site",
+			Assumptions: commonAssumptions,
+		},
+		Thorough: []LoadCfg{{GOOS: "linux", GOARCH: "amd64", Tags: []string{"packetioSizeHardlimit"}}, {GOOS: "linux", GOARCH: "386"}, {GOOS: "js", GOARCH: "wasm"}},
+	})
+	register("C07", &propDef{
+		Run: runC07,
+		Info: propInfo{
+			Explanation: "Limit and occupancy rules of packetio.Buffer: the limit test of Write is extracted as a decision structure over linear atoms and compared, by a complete truth table over its distinct atoms, with 'refuse iff (limitCount>0 and count+1>limitCount) or (limitSize>0 and size+2+len>limitSize)' (any equivalent comparison spelling has the same normal form); all stores are dominated by that test; no error return is reachable after a store; growth re-linearises and is capped at limitSize+1 / 4 MiB; Count/Size return the occupancy fields/helper under the mutex, the setters store their argument under the mutex and nobody else writes the limits; the occupancy and free-space helpers have the exact linear forms tail-head (+len) and size+3<=available; count updates are paired. Not decided: exactness at every occupancy of the growth arithmetic.",
+			RuleText:    "one obligation per rule; sites are branch atoms, stores, returns and helper paths; non-trivial = matched at least one site",
+			Assumptions: commonAssumptions,
+		},
+		Thorough: []LoadCfg{{GOOS: "linux", GOARCH: "amd64", Tags: []string{"packetioSizeHardlimit"}}, {GOOS: "linux", GOARCH: "386"}},
+	})
 	register("C09", &propDef{
 		Run: runC09,
 		Info: propInfo{
